@@ -144,12 +144,13 @@ add("C19",
     "(copies in the multi-process case), and the reported count grows by exactly the number of real invocations, in the parent "
     "or inside the workers; with a fitness function that may raise (arbitrary predicate of the genome) a phase that returns has "
     "evaluated and counted every due individual, and serial and worker-process evaluation fail to return on exactly the same "
-    "populations. Tied to the code by running real Evaluation objects (real LocalOptFitnessFunction, worker pools) on "
+    "populations. The due test is TRANSLATED from evaluation.py on every run and proved equal to the model's; the statement sequence of the "
+    "counter-delta protocol is pinned by the same translator (tr_evalphase.py). Tied to the code by running real Evaluation objects (real LocalOptFitnessFunction, worker pools) on "
     "generated flag patterns and comparing inside Coq, with a cross-process independent invocation counter.",
     "Trusted: Coq kernel; pickling = independent copy; Pool results consumed in submission order; the harness. Island / archipelago "
     "evolution histories (scipy local optimisation, 2 workers, RandomSubsetEvaluation) are checked against the independent counter "
     "after every evolve - that part is a test, the theorem covers one phase and the summation. Axiom-free.",
-    "Rocq/Coq proof (generic model, any optimizer oracle) + differential correspondence with an independent counter")
+    "Rocq/Coq proof (generic model, any optimizer oracle) + translator/pin for the evaluation loops + differential correspondence with an independent counter")
 
 add("C16",
     "Coq model of the sympy printer (translated templates) and of the parser at character level (bad-substring test, the two "
